@@ -100,6 +100,12 @@ def gen(rng, block=None, dyn=None, shutdown=True, cancels=True):
         env.append({"delay": rng.choice([0, 0, 1, 1, 2, 3, 5, 8]), "out": rng.choice([["ok", k], ["ok", k], ["err", 100 + k]]),
                     "run_first": rng.random() < 0.7, "sync": rng.random() < 0.12,
                     "never": rng.random() < 0.05})
+    if rng.random() < 0.3:
+        # burst: every delegate future takes equally long, so the slots of one batch free up at the SAME virtual instant and
+        # completions race with each other's wake-up of the hand-over thread while work is still queued
+        d = rng.choice([0, 1, 2])
+        for e in env:
+            e["delay"], e["never"], e["sync"] = d, False, False
     cs = []
     if cancels:
         for i in range(nsub):
